@@ -31,16 +31,17 @@ def shard(name, workers=3, **kw):
 def plan(tier):
     if tier == "quick":
         return [
-            shard("flips", 4, Keys=q(["r1", "nm2"]), MutSel=q(["flip"])),
-            shard("flipcraft", 4, Keys=q(["r2"]), Entries=q(["sign_nil"]), Crafts=q(["r1", "rshort", "s1", "sshort", "rnm1"]), MutSel=q(["flip"])),
-            shard("struct_a", 4, Keys=q(["k1", "nm2", "short"]), Entries=q(["sign_gm"]), UidLens=S([16]), MsgLens=S([64]), MutSel=q(M_STRUCT)),
-            shard("struct_b", 4, Keys=q(["k2", "r1", "r2"]), Entries=q(["signwithsm2"]), UidLens=S([0]), MsgLens=S([33]), MutSel=q(M_STRUCT)),
-            shard("combos_a", 4, Keys=q(["k1", "r3"]), Entries=q(["signasn1_gm", "legacy_signwithsm2"]), UidLens=S([0, 1, 16]), MsgLens=S([0, 1, 64, 1024])),
-            shard("combos_b", 4, Keys=q(["nm2", "r1"]), Entries=q(["sign_gm", "sign_nil"]), UidLens=S([0, 1, 16]), MsgLens=S([0, 1, 64, 1024])),
-            shard("entries", 4, Keys=q(["r1"]), Routes=q(R_ALL), Entries=q(E_ALL), UidLens=S([0]), MsgLens=S([32]), Skews=S([0, 1])),
-            shard("hist", 4, Keys=q(["r2", "nm2"]), Routes=q(["struct"]), Entries=q(["sign_gm", "sign_nil", "legacy_sign"]), MsgLens=S([16]), Skews=S([1]), MaxSigns=3),
-            shard("crafts", 4, Keys=q(["r1", "k2"]), Entries=q(["sign_nil", "legacy_sign"]), Crafts=q(CRAFTS), Skews=S([0, 1]), MsgLens=S([8])),
-            shard("bad", 2, Keys=q(BAD), Routes=q(["struct", "fromec", "sec1"]), Entries=q(["signasn1_gm", "sign_nil", "signwithsm2", "legacy_sign", "sign_default"]), MaxSigns=3),
+            shard("flips", 4, Keys=q(["r1", "nm2", "k1", "short"]), MutSel=q(["flip"])),
+            shard("flipcraft", 4, Keys=q(["r2"]), Entries=q(["sign_nil"]), Crafts=q(["r1", "rshort", "s1", "sshort", "rnm1", "snm1"]), MutSel=q(["flip"])),
+            shard("struct_a", 4, Keys=q(["k1", "nm2", "short", "r3"]), Entries=q(["sign_gm"]), UidLens=S([16]), MsgLens=S([64]), MutSel=q(M_STRUCT)),
+            shard("struct_b", 4, Keys=q(["k2", "r1", "r2", "r4"]), Entries=q(["signwithsm2"]), UidLens=S([0]), MsgLens=S([33]), MutSel=q(M_STRUCT)),
+            shard("combos_a", 4, Keys=q(["k1", "r3", "k2", "r4"]), Entries=q(["signasn1_gm", "legacy_signwithsm2"]), UidLens=S([0, 1, 16]), MsgLens=S([0, 1, 64, 1024])),
+            shard("combos_b", 4, Keys=q(["nm2", "r1", "r2", "short"]), Entries=q(["sign_gm", "sign_nil"]), UidLens=S([0, 1, 16]), MsgLens=S([0, 1, 64, 1024])),
+            shard("ctx", 4, Keys=q(["r1", "k2"]), Entries=q(["signasn1_gm"]), UidLens=S([0, 16]), MsgLens=S([1, 64, 1024]), MutSel=q(["ctx"])),
+            shard("entries", 4, Keys=q(["r1", "nm2"]), Routes=q(R_ALL), Entries=q(E_ALL), UidLens=S([0, 16]), MsgLens=S([32]), Skews=S([0, 1])),
+            shard("hist", 4, Keys=q(["r2", "nm2", "k1"]), Routes=q(["struct", "sec1"]), Entries=q(["sign_gm", "sign_nil", "legacy_sign", "signwithsm2"]), MsgLens=S([16]), Skews=S([1]), MaxSigns=3),
+            shard("crafts", 4, Keys=q(["r1", "k2", "nm2"]), Entries=q(E_DIG), Crafts=q(CRAFTS), Skews=S([0, 1]), MsgLens=S([8])),
+            shard("bad", 3, Keys=q(BAD), Routes=q(["struct", "fromec", "sec1"]), Entries=q(E_ALL), MaxSigns=3),
             shard("uid8191", 1, Keys=q(["r4"]), Entries=q(["signwithsm2"]), UidLens=S([8191])),
         ]
     keys = ["k1", "k2", "nm2", "r1", "r2", "r3", "r4", "short"]
